@@ -166,6 +166,72 @@ def check_sbxd(ctx, t, log):
     ctx.validate(k, [[b0, x] for x in C.boundary_values(t.bits, [t.gmax, t.gmax + 1])], base=None)
 
 
+# ------------------------------------------------------------------ stores whose source type differs from the pointee type; in-place ++/--
+def x_source(dsts, srcs, sbx):
+    s = [C.PRELUDE_SB, "using S = %s;" % sbx]
+    for t in dsts:
+        for u in srcs:
+            if u.tag != t.tag:
+                s.append("K void k_xstore_%s_%s(uint64_t base, uint64_t cell, %s v) { S::g_base = base; auto p = mk_tainted<%s*, S>(cell); *p = v; }"
+                         % (t.tag, u.tag, u.cxx, t.cxx))
+        for op, sym in (("inc", "++"), ("dec", "--")):
+            s.append("K void k_%s_%s(uint64_t base, uint64_t cell) { S::g_base = base; auto p = mk_tainted<%s*, S>(cell); %s(*p); }" % (op, t.tag, t.cxx, sym))
+    return "\n".join(s) + "\n"
+
+
+def check_xstore(ctx, t, u, log):
+    k = "k_xstore_%s_%s" % (t.tag, u.tag)
+    base = ctx.sandbox_base(log)
+    size = 1 << log
+    cell = ctx.sym("cell", 64)
+    v = ctx.sym("v", u.bits)
+    gb = t.gbits // 8
+    ctx.assume(z3.UGE(cell, base), z3.ULE(cell - base, BV(size - gb, 64)))
+    paths = ctx.run(k, [base, cell, v])
+    V = ext(v, u.signed)
+    inr = z3.And(V >= t.gmin, V <= t.gmax)
+    for p in paths:
+        if p.status == "abort":
+            ctx.require(p, z3.Not(inr), "store aborts only when the source value is not representable in the guest type of the destination")
+        elif p.status == "ret":
+            got = z3.Concat(*[z3.Select(p.mem, cell + BV(i, 64)) for i in reversed(range(gb))]) if gb > 1 else z3.Select(p.mem, cell)
+            ctx.require(p, z3.And(inr, ext(got, t.signed) == V), "guest cell holds the mathematical value of the source (no silent truncation, wrap or sign change)")
+    ctx.only(paths, "ret", "abort")
+    ctx.expect(paths, ret=1)
+    b0 = 0x300000000 if log == 32 else (0x300000000 + (7 << log))
+    ctx.validate(k, [[b0, b0 + 0x40, x] for x in C.boundary_values(u.bits, [t.gmax, t.gmax + 1, t.gmin, t.gmin - 1])], base=b0)
+
+
+def check_incdec(ctx, t, op, log):
+    """++x / --x on a sandbox-resident x is x = x +/- 1 computed in the application's (promoted) type and stored back checked"""
+    k = "k_%s_%s" % (op, t.tag)
+    base = ctx.sandbox_base(log)
+    size = 1 << log
+    cell = ctx.sym("cell", 64)
+    gb = t.gbits // 8
+    ctx.assume(z3.UGE(cell, base), z3.ULE(cell - base, BV(size - gb, 64)))
+    mem0 = ctx.eng.initial_memory()
+    raw = z3.Concat(*[z3.Select(mem0, cell + BV(i, 64)) for i in reversed(range(gb))]) if gb > 1 else z3.Select(mem0, cell)
+    V = ext(raw, t.signed)
+    pbits, psigned = (32, True) if t.bits < 32 else (t.bits, t.signed)     # integer promotion of the application type
+    R = V + 1 if op == "inc" else V - 1
+    ub = z3.BoolVal(False)
+    if psigned:
+        ub = z3.Or(R > (1 << (pbits - 1)) - 1, R < -(1 << (pbits - 1)))    # signed overflow in the application: undefined, no obligation
+    else:
+        R = ext(z3.Extract(pbits - 1, 0, R), False)                         # unsigned arithmetic wraps in the application type
+    inr = z3.And(R >= t.gmin, R <= t.gmax)
+    paths = ctx.run(k, [base, cell])
+    for p in paths:
+        if p.status == "abort":
+            ctx.require(p, z3.Or(ub, z3.Not(inr)), "aborts only when the application-level result does not fit the guest type")
+        elif p.status == "ret":
+            got = z3.Concat(*[z3.Select(p.mem, cell + BV(i, 64)) for i in reversed(range(gb))]) if gb > 1 else z3.Select(p.mem, cell)
+            ctx.require(p, z3.Or(ub, z3.And(inr, ext(got, t.signed) == R)), "guest cell holds exactly the application-level result (never a silently wrapped one)")
+    ctx.only(paths, "ret", "abort", "ub")
+    ctx.expect(paths, ret=1)
+
+
 WIDE = [C.IT("int", "int", 32, True, 64), C.IT("uint", "unsigned int", 32, False, 64), C.IT("short", "short", 16, True, 32), C.IT("ushort", "unsigned short", 16, False, 32)]
 
 
@@ -235,6 +301,13 @@ def jobs(tier, seed):
                 chks.append(dict(name="%s load %s" % (sbx, t.tag), fn=check_load, kw=dict(t=t, log=log)))
                 chks.append(dict(name="%s sandboxed %s" % (sbx, t.tag), fn=check_sbxd, kw=dict(t=t, log=log)))
             out.append(Job("C06_e2e_%s_%s" % (sbx, grp[0].tag), e2e_source(grp, sbx), chks))
+    by = {t.tag: t for t in C.STD_INTS}
+    dsts = [by[x] for x in (("schar", "uchar", "short", "ushort", "int", "uint", "long", "ulong", "llong", "ullong") if tier == "thorough" else ("uchar", "short", "int", "uint", "long", "ulong"))]
+    srcs = [by[x] for x in (("schar", "uchar", "short", "ushort", "int", "uint", "long", "ulong", "llong", "ullong") if tier == "thorough" else ("schar", "int", "uint", "llong", "ulong"))]
+    for t in dsts:
+        chks = [dict(name="B32 store %s <- plain %s" % (t.tag, u.tag), fn=check_xstore, kw=dict(t=t, u=u, log=32)) for u in srcs if u.tag != t.tag]
+        chks += [dict(name="B32 %s on sandbox-resident %s" % (op, t.tag), fn=check_incdec, kw=dict(t=t, op=op, log=32)) for op in ("inc", "dec")]
+        out.append(Job("C06_x_B32_" + t.tag, x_source([t], srcs, "B32"), chks))
     wchk = []
     for t in WIDE:
         wchk += [dict(name="B32W load %s (narrowing)" % t.tag, fn=check_load_wide, kw=dict(t=t)), dict(name="B32W store %s (widening)" % t.tag, fn=check_store_wide, kw=dict(t=t))]
